@@ -161,6 +161,24 @@ def run_c10(ck):
     for i in range(30 if quick else 400):
         base.append(("multibucket%d" % i, {"mode": "asm", "files": {"main.asm": multibucket_program(rng)}, "roots": ["main.asm"],
                                            "formats": ["binary"], "want": {"messages": True, "printed": True}}))
+    # parameters whose names differ only by the prefix that asm blocks put in front of local names
+    for i in range(8 if quick else 60):
+        a, b = rng.choice([("x", "__x"), ("v", "__v"), ("__n", "n")])
+        form = rng.choice(["#ruledef\n{\n    emit {v} => v`8\n}\n#fn pick(%s, %s) => asm\n{\n    emit {%s}\n}\n#d8 pick(0x11, 0x22)\n",
+                           "#ruledef\n{\n    emit {v} => v`8\n    two {%s}, {%s} => asm\n    {\n        emit {%s}\n    }\n}\ntwo 0x11, 0x22\n"])
+        base.append(("hygiene%d" % i, {"mode": "asm", "files": {"main.asm": form % (a, b, rng.choice([a, b]))}, "roots": ["main.asm"],
+                                       "formats": ["binary"], "want": {"messages": True, "printed": True}}))
+    # many inputs whose parse fails half-way (under a unary operator, inside brackets), then expressions nested close
+    # to the depth limit: nothing of the failed parses may be left in the process
+    for i in range(400 if quick else 3000):
+        bad = rng.choice(["#d8 -\n", "#ruledef\n{\n    ld {x} => 0x1 @ x`8\n}\nld -\n", "x = !\n", "#d8 (-\n", "#d8 -(!(-\n", "x = 1 + -\n", "#d8 ~\n"])
+        base.append(("halfparsed%d" % i, {"mode": "asm", "files": {"main.asm": bad}, "roots": ["main.asm"],
+                                          "want": {"messages": True, "printed": True}}))
+    for i in range(30 if quick else 200):
+        depth = rng.randrange(38, 52)
+        deep = "#d8 " + "-(" * depth + "1" + ")" * depth + "\n"
+        base.append(("deep%d" % i, {"mode": "asm", "files": {"main.asm": deep}, "roots": ["main.asm"],
+                                    "want": {"messages": True, "printed": True}}))
     src = "#ruledef { ld {x: u8} => 0x11 @ x }\nA = 1\nB = 2\nstart:\nld A\nld start\n.inner:\nld B\n"
     for args in BAD_CMDLINES:
         base.append(("cmdline:" + " ".join(args[2:]), {"mode": "drive", "files": {"main.asm": src}, "args": args,
